@@ -307,7 +307,7 @@ type GenCfg struct {
 
 // bound families: the members of one family are satisfiable together (cue's emptiness detection
 // for bounds is C03's subject); one family per program.  Families 1 and 2 have negative operands
-// (`< -1` is printed as `<-1` by cue/format: known finding F3).
+// (`< -1` used to be printed as `<-1`: finding F3, fixed; kept as regression input).
 var boundFamilies = [][]ScalBound{
 	{{"gt", 0}, {"ge", 0}, {"lt", 10}, {"le", 10}, {"ne", 5}},
 	{{"gt", -9}, {"ge", -9}, {"lt", -1}, {"le", -1}, {"ne", -5}},
